@@ -446,6 +446,26 @@ def run_impl(case):
         if got != want:
             fails.append({'sig': 'query-' + q[0], 'what': 'query %s returned %r, the relational evaluation gives %r (shape %s, history of %d ops)'
                           % (q, got, want, case['shape'], len(case['ops']))})
+    # the result of a selection is the caller's own collection: the pool must not change when the caller empties it, and
+    # it must not grow when the model does (a selection without filter must not hand out the live instance pool)
+    for k, c in enumerate(schema['classes']):
+        mcls = model.m.find_metaclass(c['name'])
+        before = [model.idx(i) for i in mcls.storage]
+        res = model.m.select_many(c['name'])
+        snapshot = [model.idx(i) for i in res]
+        if snapshot != before:
+            fails.append({'sig': 'query-select-all', 'what': 'select_many(%s) returned %r, the pool holds %r' % (c['name'], snapshot, before)})
+        model.apply(['new', k])
+        if [model.idx(i) for i in res] != snapshot:
+            fails.append({'sig': 'result-aliases-pool', 'what': 'a select_many(%s) result changed from %r to %r when an instance was '
+                          'created afterwards' % (c['name'], snapshot, [model.idx(i) for i in res])})
+        try:
+            res.clear()
+        except Exception:
+            pass
+        if [model.idx(i) for i in mcls.storage][:len(before)] != before:
+            fails.append({'sig': 'result-aliases-pool', 'what': 'emptying a select_many(%s) result changed the instance pool from %r to %r'
+                          % (c['name'], before, [model.idx(i) for i in mcls.storage])})
     return {'obs': obs, 'd_fail': fails[:3], 'nontrivial': nontrivial, 'key': dumps([case['shape'], str(case['ops']), str(case['queries'])]),
             'stats': stats}
 
